@@ -31,11 +31,12 @@ type c12Case struct {
 
 var c12Breaks = []string{"", "", "layout-type", "link-type", "step-type", "inspection-type", "keyid-nonhex", "digest-nonhex", "sig-nonhex", "sigkeyid-nonhex",
 	"dup-step-name", "dup-inspection-name", "step-inspection-same-name", "empty-step-name", "empty-inspection-name", "bad-expiry", "bad-step-rule", "bad-inspection-rule",
-	"private-present", "scheme-mismatch", "keyid-mapkey", "pubkey-nonhex", "rootca-keyid-nonhex", "empty-keytype", "unsupported-hashalg"}
+	"private-present", "scheme-mismatch", "keyid-mapkey", "pubkey-nonhex", "rootca-keyid-nonhex", "empty-keytype", "unsupported-hashalg",
+	"intermediateca-keyid-nonhex", "intermediateca-private", "intermediateca-keyid-mapkey", "intermediateca-scheme-mismatch", "rootca-private", "rootca-keyid-mapkey", "rootca-scheme-mismatch"}
 
 func c12Gen(t *rapid.T) c12Case {
 	c := c12Case{Meta: hx.GenMeta(true, false).Draw(t, "meta"), Wrapper: rapid.SampledFrom([]string{"legacy", "dsse"}).Draw(t, "wrapper"),
-		Kind: rapid.SampledFrom([]string{"roundtrip", "corrupt", "corrupt", "corrupt", "truncate", "validator", "validator"}).Draw(t, "kind"),
+		Kind: rapid.SampledFrom([]string{"roundtrip", "corrupt", "corrupt", "corrupt", "truncate", "validator", "validator", "ptype"}).Draw(t, "kind"),
 		A:    rapid.IntRange(0, 1<<16).Draw(t, "a"), Cut: rapid.IntRange(0, 1<<20).Draw(t, "cut"), InPay: rapid.Bool().Draw(t, "inpayload")}
 	c.Signers = rapid.SliceOfNDistinct(rapid.SampledFrom([]string{"ed25519-0", "ecdsa-p256-0", "ed25519-1"}), 0, 2, rapid.ID[string]).Draw(t, "signers")
 	if c.Kind == "validator" {
@@ -204,6 +205,30 @@ func c12Run(c c12Case, r *hx.Rec) error {
 	}
 	raw, _ := os.ReadFile(path)
 	switch c.Kind {
+	case "ptype":
+		// a DSSE envelope whose payload type is almost, but not exactly, in-toto's
+		variants := []string{"application/vnd.in-toto+json; version=2", "application/vnd.in-toto+json;charset=utf-8", "Application/VND.in-toto+JSON", " application/vnd.in-toto+json",
+			"application/vnd.in-toto+json ", "application/vnd.in-toto+json;", "application/vnd.in-toto+JSON", "application/vnd.in-toto", "vnd.in-toto+json", "application/vnd.in-toto+json\n",
+			"application/json", "", "application/vnd.in-toto+jsonx", "application/vnd.in-toto+json/x", "APPLICATION/VND.IN-TOTO+JSON"}
+		pt := variants[c.A%len(variants)]
+		tree := hx.NormalizeGeneric(c.Meta.JV())
+		payload := hx.EncodeGeneric(tree)
+		k := hx.PoolKey("ed25519-0")
+		e, _ := hx.HarnessSignDSSE(k, pt, payload)
+		fp := filepath.Join(dir, "ptype.json")
+		if err := hx.WriteDSSEFile(fp, pt, payload, []map[string]any{e}); err != nil {
+			return nil
+		}
+		r.Nontrivial()
+		r.Key("ptype|%s|%s", pt, hx.GenericString(c.Meta.JV()))
+		md, lerr, pan := c12Load(fp)
+		if pan != nil {
+			return fmt.Errorf("LoadMetadata panicked on payload type %q: %v", pt, pan)
+		}
+		if lerr == nil {
+			return fmt.Errorf("a DSSE envelope with payload type %q (not in-toto's) was loaded as %T", pt, md.GetPayload())
+		}
+		return nil
 	case "roundtrip":
 		r.Label("signers=%d", len(c.Signers))
 		r.Nontrivial()
@@ -551,6 +576,27 @@ func c12Validator(c c12Case, r *hx.Rec) error {
 			k := goodKey
 			k.KeyID = "zz"
 			l.RootCas = hx.MKeys{"zz": k}
+		case "intermediateca-keyid-nonhex", "intermediateca-private", "intermediateca-keyid-mapkey", "intermediateca-scheme-mismatch", "rootca-private", "rootca-keyid-mapkey", "rootca-scheme-mismatch":
+			k := goodKey
+			mapKey := k.KeyID
+			switch strings.SplitN(broken, "-", 2)[1] {
+			case "keyid-nonhex":
+				k.KeyID, mapKey = "not hex", "not hex"
+			case "private":
+				k = hx.MKeyFromLib(hx.PoolKey("ecdsa-p256-0").Full())
+			case "keyid-mapkey":
+				mapKey = strings.Repeat("cd", 32)
+			case "scheme-mismatch":
+				k.Scheme = "ed25519"
+			}
+			// the other CA map holds a well-formed key, so that only one rule is broken
+			if strings.HasPrefix(broken, "intermediateca") {
+				l.IntermediateCas = hx.MKeys{mapKey: k}
+				l.RootCas = hx.MKeys{goodKey.KeyID: goodKey}
+			} else {
+				l.RootCas = hx.MKeys{mapKey: k}
+				l.IntermediateCas = hx.MKeys{goodKey.KeyID: goodKey}
+			}
 		default:
 			return false
 		}
